@@ -6,8 +6,8 @@
      hostnameFromHostPortBytes                -> hostnameFromHostPortBytes
      uri.go splitHostURI (host == nil)        -> splitHostURI
      hostnameFromURLString                    -> hostnameFromURLString
-     bytes.EqualFold (Go stdlib)              -> equalFold   (ASCII fast path + UTF-8 decoding + unicode.SimpleFold;
-                                                 SimpleFold is RESTRICTED to the orbits listed at [simpleFold])
+     asciiEqualFold                           -> asciiEqualFold (byte-wise toLowerTable comparison)
+     isSensitiveRedirectHeader                -> isSensitiveRedirectHeader
      isDomainOrSubdomainBytes                 -> isDomainOrSubdomainBytes
      shouldStripSensitiveHeadersOnRedirect    -> shouldStrip
      header.go normalizeHeaderKey (valid keys)-> normKey
@@ -112,106 +112,25 @@ Definition hostnameFromURLString (url : bytes) : bytes :=
   let host := if (0 <=? n)%Z then slice_from (n + 1) host else host in
   hostnameFromHostPortBytes host.
 
-(* ---- bytes.EqualFold ------------------------------------------------------------------------ *)
-Definition RuneSelf : N := 128.
-Definition RuneError : N := 65533.
-Definition is_cont (b : N) : bool := (128 <=? b) && (b <=? 191).
-
-(* utf8.DecodeRune: (rune, width); every malformed or truncated sequence is (RuneError, 1) *)
-Definition decode_rune (s : bytes) : N * nat :=
-  match s with
-  | [] => (RuneError, 0%nat)
-  | b0 :: r =>
-      if b0 <? 128 then (b0, 1%nat)
-      else if b0 <? 194 then (RuneError, 1%nat)
-      else if b0 <? 224 then
-        match r with
-        | b1 :: _ => if is_cont b1 then ((b0 - 192) * 64 + (b1 - 128), 2%nat) else (RuneError, 1%nat)
-        | _ => (RuneError, 1%nat)
-        end
-      else if b0 <? 240 then
-        match r with
-        | b1 :: b2 :: _ =>
-            let lo := if b0 =? 224 then 160 else 128 in
-            let hi := if b0 =? 237 then 159 else 191 in
-            if (lo <=? b1) && (b1 <=? hi) && is_cont b2
-            then ((b0 - 224) * 4096 + (b1 - 128) * 64 + (b2 - 128), 3%nat) else (RuneError, 1%nat)
-        | _ => (RuneError, 1%nat)
-        end
-      else if b0 <? 245 then
-        match r with
-        | b1 :: b2 :: b3 :: _ =>
-            let lo := if b0 =? 240 then 144 else 128 in
-            let hi := if b0 =? 244 then 143 else 191 in
-            if (lo <=? b1) && (b1 <=? hi) && is_cont b2 && is_cont b3
-            then ((b0 - 240) * 262144 + (b1 - 128) * 4096 + (b2 - 128) * 64 + (b3 - 128), 4%nat)
-            else (RuneError, 1%nat)
-        | _ => (RuneError, 1%nat)
-        end
-      else (RuneError, 1%nat)
-  end.
-
-(* unicode.SimpleFold, RESTRICTED: exact on ASCII, on the two non-ASCII runes that fold to ASCII letters
-   (U+017F LATIN SMALL LETTER LONG S, U+212A KELVIN SIGN) and on U+00C9/U+00E9; every other rune is taken to be
-   alone in its orbit.  The harness draws non-ASCII host bytes from these runes and from malformed UTF-8 only. *)
-Definition simpleFold (r : N) : N :=
-  if r =? 75 then 107 else if r =? 107 then 8490 else if r =? 8490 then 75          (* K k U+212A *)
-  else if r =? 83 then 115 else if r =? 115 then 383 else if r =? 383 then 83      (* S s U+017F *)
-  else if (65 <=? r) && (r <=? 90) then r + 32
-  else if (97 <=? r) && (r <=? 122) then r - 32
-  else if r =? 201 then 233 else if r =? 233 then 201                               (* É é *)
-  else r.
-
-(* r := SimpleFold(sr); for r != sr && r < tr { r = SimpleFold(r) }; r == tr   — orbits here have at most 3 elements *)
-Definition fold_reaches (sr tr : N) : bool :=
-  let r1 := simpleFold sr in
-  let r2 := if negb (r1 =? sr) && (r1 <? tr) then simpleFold r1 else r1 in
-  let r3 := if negb (r2 =? sr) && (r2 <? tr) then simpleFold r2 else r2 in
-  r3 =? tr.
-
-(* one comparison step on two runes (after "if tr == sr continue"): swap so that sr < tr, ASCII rule, general rule *)
-Definition rune_fold_eq (sr tr : N) : bool :=
-  if sr =? tr then true else
-  let lo := if tr <? sr then tr else sr in
-  let hi := if tr <? sr then sr else tr in
-  if hi <? RuneSelf then (65 <=? lo) && (lo <=? 90) && (hi =? lo + 32)
-  else fold_reaches lo hi.
-
-Fixpoint equalFold_uni (fuel : nat) (s t : bytes) : bool :=
-  match fuel with
-  | O => false
-  | S f =>
-      match s, t with
-      | [], [] => true
-      | [], _ :: _ => false
-      | _ :: _, [] => false
-      | _, _ =>
-          let (sr, ws) := decode_rune s in
-          let (tr, wt) := decode_rune t in
-          if rune_fold_eq sr tr then equalFold_uni f (skipn ws s) (skipn wt t) else false
-      end
-  end.
-
-(* the ASCII fast path; falls into the general loop at the first position where either byte is >= RuneSelf *)
-Fixpoint equalFold (s t : bytes) : bool :=
-  match s, t with
+(* ---- asciiEqualFold ---------------------------------------------------------------------------- *)
+(* equal length and toLowerTable[a[i]] == toLowerTable[b[i]] for every i *)
+Fixpoint asciiEqualFold (a b : bytes) : bool :=
+  match a, b with
   | [], [] => true
-  | sr :: s', tr :: t' =>
-      if (RuneSelf <=? sr) || (RuneSelf <=? tr) then equalFold_uni (S (length s)) s t
-      else if rune_fold_eq sr tr then equalFold s' t' else false
+  | x :: a', y :: b' => (tbl toLowerTable x =? tbl toLowerTable y) && asciiEqualFold a' b'
   | _, _ => false
   end.
 
 (* ---- isDomainOrSubdomainBytes / shouldStripSensitiveHeadersOnRedirect ----------------------- *)
 Definition isDomainOrSubdomainBytes (sub parent : bytes) : bool :=
-  if equalFold sub parent then true
+  if asciiEqualFold sub parent then true
   else match parent with
   | [] => false                                        (* an empty parent must not match every sub ending with '.' *)
   | _ :: _ =>
       if (length sub <=? length parent)%nat || has_byte COLON sub || has_byte PCT sub then false
       else
         let k := (length sub - length parent)%nat in
-        if negb (equalFold (skipn k sub) parent) then false
+        if negb (asciiEqualFold (skipn k sub) parent) then false
         else nth (k - 1) sub 0 =? DOT
   end.
 
@@ -266,9 +185,16 @@ Definition hdel (key : bytes) (r : req) : req :=
 Definition sensitive_names : list bytes :=
   [HeaderAuthorization; HeaderCookie; HeaderCookie2; HeaderProxyAuthenticate; HeaderProxyAuthorization; HeaderWWWAuthenticate].
 
+(* the name list inside isSensitiveRedirectHeader is the same six constants *)
+Definition isSensitiveRedirectHeader (key : bytes) : bool := existsb (fun n => asciiEqualFold key n) sensitive_names.
+
 Definition stripSensitiveHeadersOnRedirect (r : req) (initialHost redirectHostPort : bytes) : req :=
   if negb (shouldStrip initialHost redirectHostPort) then r
-  else fold_left (fun r k => hdel k r) sensitive_names r.
+  else
+    let r1 := fold_left (fun r k => hdel k r) sensitive_names r in
+    (* whether or not normalizing is disabled right now: every entry of h.h whose key is any spelling of the six names goes *)
+    mkReq (r_method r1) (filter (fun kv => negb (isSensitiveRedirectHeader (fst kv))) (r_h r1)) (r_dn r1)
+          (r_ct r1) (r_cl r1) (r_clb r1) (r_body r1) (r_stream r1).
 
 (* ---- what one written request looks like on the wire ---------------------------------------- *)
 Definition lower_ascii (b : N) : N := if (65 <=? b) && (b <=? 90) then b + 32 else b.
